@@ -570,7 +570,12 @@ class FakeProc:
         self.emitted = []
 
     def poll(self):
-        return self.returncode
+        rc = self.returncode
+        # the process moves on right after its status was read (inside the backend's poll, not only between polls)
+        if rc is None and self.backend.plan.get("progress_inside_poll") and self.backend.plan.get("burst", 3) > 1 \
+                and self.backend.prng.random() < 0.25:
+            self.advance(self.backend.prng.choice([1, 1, 2, 5]))
+        return rc
 
     def advance(self, n):
         """Called by the harness before a poll: emit up to n reports; maybe become visible as exited."""
@@ -736,6 +741,15 @@ def fake_proc_backend_class():
         def fetch_status_results(self, trial_ids):
             self.advance_workers(trial_ids)
             return super().fetch_status_results(trial_ids)
+
+        def stdout(self, trial_id):
+            lines = super().stdout(trial_id)
+            # ... and right after its log was read
+            proc = self.procs.get(trial_id)
+            if proc is not None and self.plan.get("progress_inside_poll") and self.plan.get("burst", 3) > 1 \
+                    and not proc.killed and proc.returncode is None and self.prng.random() < 0.25:
+                proc.advance(self.prng.choice([1, 1, 2, 5]))
+            return lines
 
         def busy_trial_ids(self):
             # workers also make progress between the poll and this query (Tuner asks it when
